@@ -327,7 +327,7 @@ class G:
             return self.value(1)
         cands = []
         t = s.get("type")
-        types = [t] if isinstance(t, str) else [x for x in (t or []) if isinstance(x, str)]
+        types = [t] if isinstance(t, str) else [x for x in (t if isinstance(t, list) else []) if isinstance(x, str)]
         if "enum" in s and isinstance(s["enum"], list) and s["enum"]:
             e = r.choice(s["enum"])
             cands += [e, self.twist(e)]
